@@ -38,6 +38,16 @@ theorem C08_analyze (cfg : Cfg) (tol : Tol) (hp : 0 ≤ tol.ptol) (hv : 0 ≤ to
   have := analyzeLoop_spec c01Hyp cfg tol hp hv n hn n t choices answers t' hinv h (by omega)
   exact ⟨this.1, this.2.1⟩
 
+/-- A tree that has already used up the budget is returned as it is: a search with budget `n` on a
+    tree whose root has `n` or more visits runs no simulation, asks the evaluator nothing and draws
+    nothing (re-searching a tree "with the budget it already has" is a no-op — the case the tie
+    exercises with `reuse = budget` and `extra = 0`). -/
+theorem C08_analyze_used_up (cfg : Cfg) (n : Nat) (hn : 0 < n) (t : Node) (hused : n ≤ t.sims)
+    (choices : List Nat) (answers : List Answer) :
+    analyzeTree cfg n t choices answers = some t := by
+  unfold analyzeTree analyzeLoop
+  simp [hn, hused]
+
 /-- the same for a search started on a position: the root has exactly `n` visits -/
 theorem C08_analyze_fresh (cfg : Cfg) (tol : Tol) (hp : 0 ≤ tol.ptol) (hv : 0 ≤ tol.vtol)
     (n : Nat) (hn : 0 < n) (p : Pos) (hwf : p.WF) (t' : Node) (choices : List Nat) (answers : List Answer)
